@@ -12,7 +12,7 @@
 #include "a/utf.h"
 #include "fault.h"
 
-#define MAXL 128
+#define MAXL 512
 #define HUGE_M 1000000
 static long n_edges, n_events, n_mismatch, n_drift, n_nontrivial, skip_until;
 static long op_cnt[40];
@@ -245,8 +245,99 @@ static int run_edge(int const *v, int nv, FILE *fo)
     return 0;
 }
 
+/* long random histories on ONE live string object: every step is logged with the content before and after and judged
+ * by itself (StrTrace); lengths far beyond the exhaustively explored ones */
+static uint64_t srnd_s;
+static unsigned srnd(void)
+{
+    srnd_s ^= srnd_s << 13; srnd_s ^= srnd_s >> 7; srnd_s ^= srnd_s << 17;
+    return (unsigned)(srnd_s >> 24);
+}
+static int do_str_random(unsigned long seed, int nhist, int nops, char const *prefix, int nb)
+{
+    FILE *fos[64];
+    char name[512];
+    if (nb > 64) { nb = 64; }
+    for (int i = 0; i < nb; ++i)
+    {
+        snprintf(name, sizeof(name), "%s-%04d.ndjson", prefix, i);
+        fos[i] = fopen(name, "w");
+        if (!fos[i]) { perror(name); return 3; }
+    }
+    static int const ops[] = {1, 1, 2, 3, 3, 4, 5, 5, 6, 7, 7, 8, 9, 9, 10, 10, 11, 12, 13, 14, 15, 16, 17, 18, 19, 20, 21, 22, 23, 26, 27, 28, 29, 30};
+    static int const cps[] = {65, 233, 8364, 128512, 1114111, 2097152, 67108864, 2147483647};
+    static unsigned char const alpha[] = {97, 98, 32, 9, 0, 200, 0xC3, 0xA9, 45, 122};
+    srnd_s = 0x9E3779B97F4A7C15ull ^ (seed * 1000003ull);
+    for (int h = 0; h < nhist; ++h)
+    {
+        a_str o, other;
+        a_str_ctor(&o);
+        for (int t = 0; t < nops; ++t)
+        {
+            int n = (int)o.num_, mem = (int)o.mem_, op = ops[srnd() % (sizeof(ops) / sizeof(ops[0]))];
+            if (n > MAXL - 40 && op <= 10) { op = 13; }
+            int blk[8], nblk = 1 + (int)(srnd() % 4), a1 = 0;
+            for (int i = 0; i < nblk; ++i) { blk[i] = alpha[srnd() % sizeof(alpha)]; }
+            if (op == 1 || op == 2) { nblk = 1; }
+            if (op == 9) { a1 = 1 + (int)(srnd() % 8); nblk = 0; }
+            if (op == 10) { a1 = cps[srnd() % 8]; nblk = 0; }
+            if (op == 13 || op == 14) { a1 = srnd() % 6 == 0 ? HUGE_M : (int)(srnd() % 12); nblk = 0; }
+            if (op >= 15 && op <= 20) { nblk = (int)(srnd() % 3); for (int i = 0; i < nblk; ++i) { blk[i] = alpha[srnd() % 4]; } }
+            if (op == 21 || op == 22) { a1 = n - 3 + (int)(srnd() % 7); if (a1 < 0) { a1 = 0; } if (op == 22 && a1 > mem) { a1 = mem; } nblk = 0; }
+            if (op == 23) { a1 = (int)(srnd() % (unsigned)(n + 20)); nblk = 0; }
+            if (op == 29 && !mem) { op = 23; a1 = 8; nblk = 0; }
+            if (op == 30) { if (!mem) { op = 23; a1 = 8; } else { a1 = (int)(srnd() % (unsigned)(2 * n + 12)) - n - 4; } nblk = 0; }
+            if (op == 11 || op == 12) { nblk = 0; }
+            /* record the state before */
+            int pre[MAXL + 8];
+            for (int i = 0; i < n; ++i) { pre[i] = (unsigned char)o.ptr_[i]; }
+            /* bytes exposed by a growing setn are unspecified: the harness fills them below like run_edge does */
+            snprintf(cur_desc, sizeof(cur_desc), "\"op\":\"%s\",\"a1\":%d,\"n\":%d,\"mem\":%d,\"nblk\":%d,\"random\":1", opn[op], a1, n, mem, nblk);
+            unsigned char b[MAXL + 8], got[MAXL + 8];
+            for (int i = 0; i < nblk; ++i) { b[i] = (unsigned char)blk[i]; }
+            b[nblk] = 0;
+            int ngot = 0, ret = 0;
+            char *ex = NULL;
+            a_size k = a1 == HUGE_M ? (a_size)-1 : (a_size)a1;
+            (void)ex;
+            f_begin(0, 0);
+#include "str_ops.inc"
+            f_end();
+            if ((op == 21 || op == 22) && ret == 0 && (int)o.num_ > n && o.num_ <= o.mem_)
+            {
+                for (int i = n; i < (int)o.num_; ++i) { o.ptr_[i] = 'z'; }
+            }
+            int pnum = (int)o.num_, pmem = (int)o.mem_;
+            int readable = pnum <= pmem && pnum <= MAXL;
+            FILE *fo = fos[(n_events / 256) % nb];
+            fprintf(fo, "{\"op\":\"%s\",\"a1\":%d,\"blk\":", opn[op], a1);
+            put_ints(fo, blk, nblk);
+            fprintf(fo, ",\"pre\":{\"mem\":%d,\"s\":", mem);
+            put_ints(fo, pre, n);
+            fprintf(fo, "},\"post\":{\"mem\":%d,\"after\":%d,\"s\":", pmem, (readable && pnum < pmem) ? (unsigned char)o.ptr_[pnum] : -1);
+            put_bytes(fo, (unsigned char const *)o.ptr_, readable ? pnum : 0);
+            fprintf(fo, "},\"ret\":%d,\"out\":", ret);
+            put_bytes(fo, got, ngot > 0 ? ngot : 0);
+            fprintf(fo, ",\"outok\":%d}\n", ngot >= 0);
+            ++n_events;
+            ++n_edges;
+        }
+        a_str_dtor(&o);
+    }
+    for (int i = 0; i < nb; ++i) { fclose(fos[i]); }
+    printf("SUMMARY {\"edges\":%ld,\"events\":%ld}\n", n_edges, n_events);
+    return 0;
+}
+
 int main(int argc, char **argv)
 {
+    if (argc >= 7 && !strcmp(argv[1], "random"))
+    {
+        __sanitizer_set_death_callback(on_death);
+        signal(SIGABRT, on_abort);
+        f_install();
+        return do_str_random(strtoul(argv[2], 0, 10), atoi(argv[3]), atoi(argv[4]), argv[5], atoi(argv[6]));
+    }
     if (argc < 5 || strcmp(argv[1], "edges")) { fprintf(stderr, "usage: %s edges <tlc-output> <out-prefix> <batches> [skip]\n", argv[0]); return 2; }
     __sanitizer_set_death_callback(on_death);
     signal(SIGABRT, on_abort);
